@@ -539,6 +539,22 @@ def propagate_new_constants(tree, ref_globals, rel=None):
 
 
 class _Getattr(ast.NodeTransformer):
+    def visit_JoinedStr(self, n):
+        """f"Get{'ResidueName'}" (what is left of f"Get{field}" once the table loop is written out) -> "GetResidueName" """
+        self.generic_visit(n)
+        if not any(isinstance(v, ast.FormattedValue) for v in n.values):
+            return n                     # an f-string without fields stays what it is
+        parts = []
+        for v in n.values:
+            if isinstance(v, ast.Constant) and isinstance(v.value, str):
+                parts.append(v.value)
+            elif isinstance(v, ast.FormattedValue) and v.conversion == -1 and v.format_spec is None \
+                    and isinstance(v.value, ast.Constant) and isinstance(v.value.value, str):
+                parts.append(v.value.value)
+            else:
+                return n
+        return ast.copy_location(ast.Constant("".join(parts)), n)
+
     def visit_Subscript(self, n):
         self.generic_visit(n)
         def conv(c):
@@ -564,6 +580,10 @@ class _Getattr(ast.NodeTransformer):
         if isinstance(n.func, ast.Name) and n.func.id == "getattr" and len(n.args) == 2 and not n.keywords \
                 and isinstance(n.args[1], ast.Constant) and isinstance(n.args[1].value, str) and n.args[1].value.isidentifier():
             return ast.copy_location(ast.Attribute(value=n.args[0], attr=n.args[1].value, ctx=ast.Load()), n)
+        # atoms.get_annotation("chain_id") is atoms.chain_id (atoms.py: __getattr__ looks the name up in the same dictionary)
+        if isinstance(n.func, ast.Attribute) and n.func.attr == "get_annotation" and len(n.args) == 1 and not n.keywords \
+                and isinstance(n.args[0], ast.Constant) and isinstance(n.args[0].value, str) and n.args[0].value.isidentifier():
+            return ast.copy_location(ast.Attribute(value=n.func.value, attr=n.args[0].value, ctx=ast.Load()), n)
         # max((a, b, c)) -> max(a, b, c)   (one literal collection of at least two items: the same comparison sequence)
         if isinstance(n.func, ast.Name) and n.func.id in ("max", "min") and len(n.args) == 1 and not n.keywords \
                 and isinstance(n.args[0], (ast.Tuple, ast.List)) and len(n.args[0].elts) >= 2 \
@@ -1253,6 +1273,16 @@ def inline_new_helpers(tree, ref_funcs, rel=None):
                             tmp = f"_h{uid[0]}_{p}"
                             pre.append(ast.Assign(targets=[ast.Name(id=tmp, ctx=ast.Store())], value=copy.deepcopy(a)))
                             sub[p] = ast.Name(id=tmp, ctx=ast.Load())
+                    # `t = helper(..)` whose helper ends in `return v` (v a local of the helper): v IS t - the helper's local takes the
+                    # caller's name instead of a fresh one followed by `t = _h_v` (t must not be read by the arguments or the body)
+                    if target not in (None, "return") and len(target) == 1 and isinstance(target[0], ast.Name) and body \
+                            and isinstance(body[-1], ast.Return) and isinstance(body[-1].value, ast.Name) and body[-1].value.id in stores \
+                            and body[-1].value.id not in m:
+                        t_ = target[0].id
+                        mentioned = {x.id for a_ in m.values() for x in ast.walk(a_) if isinstance(x, ast.Name)} | \
+                            ({x.id for b in body for x in ast.walk(b) if isinstance(x, ast.Name)} - set(stores))
+                        if t_ not in mentioned:
+                            fresh[body[-1].value.id] = t_
                     body = [_rename(copy.deepcopy(b), fresh) for b in body]
                     new_stmts = list(pre)
                     ok = True
@@ -1262,7 +1292,8 @@ def inline_new_helpers(tree, ref_funcs, rel=None):
                             if target == "return":
                                 new_stmts.append(ast.Return(value=val))
                             elif target is not None:
-                                new_stmts.append(ast.Assign(targets=copy.deepcopy(target), value=val))
+                                if not (len(target) == 1 and isinstance(target[0], ast.Name) and isinstance(val, ast.Name) and val.id == target[0].id):
+                                    new_stmts.append(ast.Assign(targets=copy.deepcopy(target), value=val))
                             else:
                                 new_stmts.append(ast.Expr(value=val))
                         else:
@@ -1581,7 +1612,10 @@ def inline_new_temps(tree, ref_mod, ctype=None):
                 elif isinstance(x, ast.Call) and any(isinstance(a, ast.Name) and a.id == nm for a in x.args) \
                         and isinstance(asg.value, (ast.List, ast.Dict, ast.Set, ast.ListComp, ast.DictComp)):
                     pass
-            if mutated:
+            # ... unless the name is nothing but a handle on a part of another object (`col = atoms.chain_id; col[i] = v`, one use):
+            # storing through the handle is storing through the expression
+            handle = isinstance(asg.value, (ast.Attribute, ast.Subscript, ast.Name)) and _effect_free_argument(asg.value) and n_uses == 1
+            if mutated and not handle:
                 n_uses = 0
             # soundness of moving the expression to its uses
             has_call = any(isinstance(x, ast.Await) or (isinstance(x, ast.Call) and not (
